@@ -34,7 +34,8 @@ func (t *TextTemplater) Apply(parts *gun.RequestParts, vs map[string]any, scenar
 	strBuilder.Reset()
 
 	for k, v := range parts.Headers {
-		tmpl, err = t.getTemplate(v, scenarioName, stepName, k)
+		// "header "+k: a header named "url" or "body" must not share the cached template of that part
+		tmpl, err = t.getTemplate(v, scenarioName, stepName, "header "+k)
 		if err != nil {
 			return fmt.Errorf("%s, template.Execute Header %s, %w", op, k, err)
 		}
